@@ -86,16 +86,19 @@ def drive_estimator(seed):
                                                pts=np.rint(X * S).astype(int).tolist(), S=S, tol=TOL, key=key, meta=w))
                         except Exception as ex:
                             bad.append(("C13.no-error", dict(exc=type(ex).__name__, **w), None, repr(ex)[:200]))
-                    l1 = 2
-                    key = ("est", repr(A), n, sd, str(engine), l1)
-                    for rep in range(2):
-                        w = dict(op="sample_in_gamut", d=d, engine=str(engine), n=n, l1=True)
-                        try:
-                            X = np.asarray(est.sample_in_gamut(n, seed=sd, engine=engine, l1=float(l1)), float)
-                            events.append(dict(ev="l1", P=nz, n=n, l1=l1, count=int(X.shape[0]) if X.ndim == 2 and X.shape[1] == d else -1,
-                                               pts=np.rint(X * S).astype(int).tolist(), S=S, tol=TOL, key=key, meta=w))
-                        except Exception as ex:
-                            bad.append(("C13.no-error", dict(exc=type(ex).__name__, **w), None, repr(ex)[:200]))
+                    # requested totals: below every lit corner (the slice of the gamut is the slice of its cone), and
+                    # at half and at 0.9 of the largest total the system can produce (a proper slice of the zonotope)
+                    tmax = max(sum(c) for c in corners)
+                    for l1, lkind in ((2.0, "low"), (tmax / 2, "half"), (0.9 * tmax, "high")):
+                        key = ("est", repr(A), n, sd, str(engine), lkind)
+                        for rep in range(2):
+                            w = dict(op="sample_in_gamut", d=d, engine=str(engine), n=n, l1=lkind)
+                            try:
+                                X = np.asarray(est.sample_in_gamut(n, seed=sd, engine=engine, l1=float(l1)), float)
+                                events.append(dict(ev="l1", G=[list(c) for c in corners], n=n, l1S=int(round(l1 * S)), count=int(X.shape[0]) if X.ndim == 2 and X.shape[1] == d else -1,
+                                                   pts=np.rint(X * S).astype(int).tolist(), S=S, tol=TOL, key=key, meta=w))
+                            except Exception as ex:
+                                bad.append(("C13.no-error", dict(exc=type(ex).__name__, **w), None, repr(ex)[:200]))
         # the same estimator after its bounds have been changed: samples must come from the NEW gamut
         try:
             newub = [1] * (n_src - 1) + [0]
@@ -109,7 +112,7 @@ def drive_estimator(seed):
                         events.append(dict(ev="sample", P=[list(c) for c in corners2], n=200, count=int(X.shape[0]), pts=np.rint(X * S).astype(int).tolist(), S=S, tol=TOL,
                                            key=("est2", repr(A), None), meta=w))
                     else:
-                        events.append(dict(ev="l1", P=[list(c) for c in corners2 if any(c)], n=200, l1=l1, count=int(X.shape[0]), pts=np.rint(X * S).astype(int).tolist(), S=S, tol=TOL,
+                        events.append(dict(ev="l1", G=[list(c) for c in corners2], n=200, l1S=int(round(l1 * S)), count=int(X.shape[0]), pts=np.rint(X * S).astype(int).tolist(), S=S, tol=TOL,
                                            key=("est2", repr(A), l1), meta=w))
         except Exception as ex:
             bad.append(("C13.no-error", dict(exc=type(ex).__name__, op="sample_in_gamut", after_register_bounds=True, d=d), None, repr(ex)[:200]))
@@ -154,7 +157,7 @@ def run(ctx):
     for e in events:
         ctx.count("%s:%s:d=%d" % (e["ev"], e["meta"]["engine"], e["meta"]["d"]))
         if e["n"] >= 2:
-            ctx.nontrivial.add((e["ev"], repr(e["P"]), e["n"], e.get("key"), repr(e.get("counts"))))
+            ctx.nontrivial.add((e["ev"], repr(e.get("P", e.get("G"))), e["n"], e.get("key"), repr(e.get("counts"))))
     ctx.extra["points_validated"] = int(sum(len(e.get("pts", [])) for e in events) + sum(e["n"] for e in events if e["ev"] == "counts"))
     cnt = [e for e in events if e["ev"] == "counts"][:1]
     ctx.sample({k: v for k, v in cnt[0].items() if k != "meta"} if cnt else {})
